@@ -443,10 +443,11 @@ pub struct FuChecker {
     pub state_oracles: Vec<fn(&FuChecker, &mut World, &FuGhost, &mut Rec)>,
     pub farm_fee: (String, u128),
     pub reward_denoms: Vec<&'static str>,
+    pub max_farms: u32,
 }
 impl FuChecker {
     pub fn new(name: &str, seeds: Vec<&'static str>, alpha: FAlpha, oracles: Vec<FuOracle>) -> Self {
-        FuChecker { name: name.into(), seeds, alpha, oracles, state_oracles: vec![], farm_fee: ("uom".into(), 1000), reward_denoms: vec!["uusdc"] }
+        FuChecker { name: name.into(), seeds, alpha, oracles, state_oracles: vec![], farm_fee: ("uom".into(), 1000), reward_denoms: vec!["uusdc"], max_farms: 2 }
     }
 }
 
@@ -504,6 +505,17 @@ impl FuChecker {
                 v.push(FuOp::CreatePos { u: A, lp: 0, amount: 7, dur: 100 * DAY, id: Some("k".into()), recv: None });
                 v.push(FuOp::ClosePos { u: A, id: "u-1".into(), partial: None });
                 v.push(pos(B, 0, 1000, DAY));
+            }
+            "F6" => {
+                // more farms on one LP token than one page of the farm listing (needs max_concurrent_farms >= 12)
+                v.push(pos(A, 0, 1000, DAY));
+                v.push(pos(B, 0, 1000, 100 * DAY));
+                for i in 1..=11u32 {
+                    let rd = if i == 11 { "uom" } else { "uusdc" };
+                    v.push(farm_op(fee, C, 0, Some(1), Some(4), (rd, 3000), Some(&format!("f{i:02}"))));
+                }
+                v.push(FuOp::Advance { secs: DAY });
+                v.push(FuOp::Advance { secs: DAY });
             }
             _ => panic!("MACHINERY: unknown FU seed {name}"),
         }
@@ -734,7 +746,7 @@ impl Checker for FuChecker {
         self.name.clone()
     }
     fn cfg(&self) -> WorldCfg {
-        cfg_with_fee(&self.farm_fee)
+        WorldCfg { max_concurrent_farms: self.max_farms, ..cfg_with_fee(&self.farm_fee) }
     }
     fn seeds(&self) -> Vec<(String, Vec<FuOp>)> {
         self.seeds.iter().map(|s| (s.to_string(), self.seed_ops(s))).collect()
